@@ -47,7 +47,8 @@ type leaderRun struct {
 	issued  int64
 	done    atomic.Int64 // client callbacks completed (ok or error)
 	nIssued int64
-	refused bool // a generated request was not accepted by the leader: the schedule cannot be followed
+	nextCtx context.Context // the context of the next write (a client that may give up)
+	refused bool            // a generated request was not accepted by the leader: the schedule cannot be followed
 }
 
 func startLeader(n *node, rf int, term int64, heads *proto.EntryId) (*leaderRun, error) {
@@ -92,7 +93,12 @@ func (lr *leaderRun) write(req *proto.WriteRequest) {
 		waitLive(lr.n, stepTimeout, func() bool { _, a := lr.n.walf.current().heads(); return a >= expected })
 	} else {
 		lr.nIssued++
-		lr.lc.Write(context.Background(), req, concurrent.NewOnce(
+		ctx := lr.nextCtx
+		lr.nextCtx = nil
+		if ctx == nil {
+			ctx = context.Background()
+		}
+		lr.lc.Write(ctx, req, concurrent.NewOnce(
 			func(*proto.WriteResponse) { lr.done.Add(1) },
 			func(error) { lr.done.Add(1) }))
 	}
